@@ -548,6 +548,7 @@ inductive Ev
   | msg (c : ConnId) (m : Msg)
   | invalid (c : ConnId)            -- bytes that do not form a valid message: the loader disconnects
   | close (c : ConnId)
+  | timeout                          -- the configured reply timeout has elapsed for every pending reply
   deriving Inhabited
 
 def PEER_IFACE : Bytes := ([0x6f,0x72,0x67,0x2e,0x66,0x72,0x65,0x65,0x64,0x65,0x73,0x6b,0x74,0x6f,0x70,0x2e,0x44,0x42,0x75,0x73,0x2e,0x50,0x65,0x65,0x72] : Bytes)
@@ -619,6 +620,12 @@ def dispatch (tbl : List IfaceRow) (b : Bus) (c : ConnId) (m0 : Msg) : Bus × Li
         else if x.name.isNone then dropConn b c
         else finish (route { bus := b } c m) c m
 
+/-- `bus_pending_reply_expired` for every entry (in list order; the real order is that of the
+    deadlines): the caller gets NoReply, the slot goes -/
+def expireAll (b : Bus) : Bus × List Out :=
+  let t := b.pending.foldl (fun t p => sendError t p.caller (fakeCall p.serial) .noReply) ({ bus := { b with pending := [] } } : Tx)
+  (t.bus, t.out)
+
 def step (tbl : List IfaceRow) (b : Bus) : Ev → Bus × List Out
   | .connect c uid gids canFd =>
     if (b.conn? c).isSome then (b, [])
@@ -626,6 +633,7 @@ def step (tbl : List IfaceRow) (b : Bus) : Ev → Bus × List Out
   | .msg c m => dispatch tbl b c m
   | .invalid c => if (b.conn? c).isNone then (b, []) else dropConn b c
   | .close c => disconnect b c
+  | .timeout => expireAll b
 
 def run (tbl : List IfaceRow) (b : Bus) (evs : List Ev) : Bus × List (List Out) :=
   evs.foldl (fun (acc : Bus × List (List Out)) ev =>
